@@ -8,7 +8,7 @@ tvars == <<vars, tid, l>>
 E == Traces[tid][l]
 TInit == Init /\ tid \in 1..NTraces /\ l = 1
 Act(e) ==
-  \/ e.a = "NewArray" /\ NewArray
+  \/ e.a = "NewArray" /\ NewArray(e.k)
   \/ e.a = "ViewOfArr" /\ ViewOfArr(e.x, e.k)
   \/ e.a = "WrapArr" /\ WrapArr(e.x)
   \/ e.a = "ConstructFromArr" /\ ConstructFromArr(e.x, e.k)
